@@ -30,6 +30,7 @@ UNITS = [
     "src/orange/transform/Transformation.cc",
     "src/orange/surf/detail/SurfaceTranslator.cc",
     "src/orange/surf/Involute.cc",
+    "src/orange/surf/detail/SurfaceTransformer.cc",
 ]
 
 
@@ -275,6 +276,35 @@ def quadric_translation(db, cx):
               why="a translated surface must contain exactly the translated points: any other "
                   "coefficient moves or deforms the surface, so the sense at the transformed point "
                   "differs from the original's sense at the original point")
+
+    # rotation + translation of a general quadric: x = R^T (x' - t)  (R^T is the inverse the code
+    # uses; orthonormality of R is an assumption of C12.1, not needed for this identity)
+    STR = C + "detail::SurfaceTransformer::operator()"
+    fs = [f for f in db.get(STR) if f.r["params"] and "GeneralQuadric" in f.r["params"][0]["ty"] and "ast" in f.r]
+    cx.require(fs, "anchor SurfaceTransformer::operator()(GeneralQuadric) (AST) not found")
+    R = [[Poly.sym("r%d%d" % (i, j)) for j in range(3)] for i in range(3)]
+
+    def rot_down(args):
+        v = args[0]
+        return [R[0][i] * as_p(v[0]) + R[1][i] * as_p(v[1]) + R[2][i] * as_p(v[2]) for i in range(3)]
+    acc = {C + "GeneralQuadric::second": a, C + "GeneralQuadric::cross": e,
+           C + "GeneralQuadric::first": b, C + "GeneralQuadric::zeroth": c0,
+           C + "Transformation::translation": t, C + "Transformation::rotation": R,
+           C + "Transformation::rotate_down": rot_down}
+    res = interpret(fs[0], acc)
+    ok = False
+    d = "unexpected return value %r" % (res,)
+    if isinstance(res, tuple) and res[0] == "construct" and res[1].endswith("GeneralQuadric::GeneralQuadric"):
+        args = res[2]
+        got = f_gq(args[0], args[1], args[2], args[3], x)
+        y = rot_down([[x[i] - t[i] for i in range(3)]])
+        want = f_gq(a, e, b, c0, y)
+        diff = got - want
+        ok = diff == Poly()
+        d = "f'(x) - f(R^T (x - t)) = %s" % (diff if not ok else "0 (polynomial identity in R, t, x)")
+    cx.ob("C12.3-quadric-translation", "transformed GeneralQuadric has the implicit function "
+          "f(R^T (x - t))", ok, d[:600], short(fs[0].loc),
+          why="a rotated and translated surface must contain exactly the transformed points")
 
 
 def rebuild_from_accessors(db, cx):
